@@ -95,7 +95,13 @@ fn gen_method(rng: &mut Rng, combo: usize) -> MethodEntry {
 fn gen_item(rng: &mut Rng, k: u64) -> Item {
     match k % 8 {
         0 => Item::Class { orig: qualified(rng, 4), obf: qualified(rng, 3) },
-        1 => Item::Field { ty: ty(rng), orig: ident(rng), obf: ident(rng) },
+        1 => {
+            // fields too may be printed with their holder class, and kept ones map onto themselves
+            let name = ident(rng);
+            let orig = if rng.chance(1, 3) { format!("{}.{}", qualified(rng, 3), name) } else { name.clone() };
+            let obf = if rng.chance(1, 3) { name } else { ident(rng) };
+            Item::Field { ty: ty(rng), orig, obf }
+        }
         2 => {
             // keys and values ending in arbitrary non-ASCII letters (every trailing UTF-8 byte)
             let uni = |rng: &mut Rng| -> String {
